@@ -542,8 +542,9 @@ class Collection(object):
         try:
             self._ensure_uniques(data)
         except Exception:
-            # Rollback
-            del self._store[object_id]
+            # Rollback (the document may already be gone: a TTL pass run by the check itself
+            # can have expired it)
+            self._store.discard(object_id)
             raise
         return _copy_field(data['_id'], dict)
 
